@@ -9,6 +9,8 @@ configuration, client table, ignore list, query and operation history.
 -/
 import AGH.Lemmas.RecordStep
 import AGH.Lemmas.IgnoreNorm
+import AGH.Spec.RecordFacts
+import AGH.Lemmas.IgnoreMatch
 namespace AGH.C08
 open AGH AGH.Bytes
 
@@ -19,23 +21,24 @@ operations (queries, flushes, live changes of both ignore lists, of the
 anonymisation switch and of the clients' flags, removals, log searches,
 statistics reads), every observable result passes the spec monitor. -/
 theorem C08_model_meets_spec (a : ResetArgs) (s0 : State) (h0 : reset a = some s0)
+    (hz0 : ZoneOK s0.conf)
     (ops : List Op) (hv : ∀ op ∈ ops, op.valid = true) : monitoredRun s0 ops = true := by
   have hi0 : Inv s0 := by
     simp only [reset, Option.map_eq_some_iff] at h0
     obtain ⟨cs, _, rfl⟩ := h0
     intro e he
     simp at he
-  suffices h : ∀ (ops : List Op) (s : State), Inv s → (∀ op ∈ ops, op.valid = true) → monitoredRun s ops = true from
-    h ops s0 hi0 hv
+  suffices h : ∀ (ops : List Op) (s : State), Inv s → ZoneOK s.conf → (∀ op ∈ ops, op.valid = true) →
+      monitoredRun s ops = true from h ops s0 hi0 hz0 hv
   intro ops
   induction ops with
-  | nil => intro s _ _; rfl
+  | nil => intro s _ _ _; rfl
   | cons op rest ih =>
-    intro s hi hv
+    intro s hi hz hv
     have hop := hv op (List.mem_cons_self ..)
     simp only [monitoredRun, specOK, Bool.and_eq_true]
-    refine ⟨?_, ih _ (Inv_step hi op hop) (fun o ho => hv o (List.mem_cons_of_mem _ ho))⟩
-    rw [specStep_model hi op hop]
+    refine ⟨?_, ih _ (Inv_step hi op hop) (ZoneOK_step hz op) (fun o ho => hv o (List.mem_cons_of_mem _ ho))⟩
+    rw [specStep_model hi hz op hop]
     rfl
 
 /-- Every reachable state stores only valid canonical addresses (used by the
@@ -65,6 +68,23 @@ theorem C08_anon_mask (a : Bytes) :
     (anonymize a).length = a.length ∧
     anonymize (anonymize a) = anonymize a :=
   ⟨masked_canon_anonymize a, anonymize_length a, anonymize_idem a⟩
+
+/-- Bit-exact form: `AnonymizeIP` keeps the first 16 bits of an IPv4 address
+(bytes 0-1; for the IPv4-mapped 16-byte form the 12-byte prefix and the same
+two bytes) resp. the first 48 bits of an IPv6 address, and every later byte is
+zero — for all addresses and all byte positions. -/
+theorem C08_anon_exact_bits (a : Bytes) (h : a.length = 4 ∨ a.length = 16) (i : Nat) :
+    (a.length = 4 → keepBytes a = 2) ∧
+    (is4in6 a = true → keepBytes a = 14) ∧
+    (a.length = 16 → is4in6 a = false → keepBytes a = 6) ∧
+    (i < keepBytes a → (anonymize a)[i]? = a[i]?) ∧
+    (keepBytes a ≤ i → i < a.length → (anonymize a)[i]? = some 0) := by
+  refine ⟨?_, ?_, ?_, (anonymize_bytes a h i).1, (anonymize_bytes a h i).2⟩
+  · intro h4; simp [keepBytes, h4]
+  · intro h6
+    have := is4in6_length h6
+    simp [keepBytes, this, h6]
+  · intro h16 h6; simp [keepBytes, h16, h6]
 
 /-- With anonymisation on, whatever a query adds to the memory buffer or to the
 statistics carries a masked address (a statistics key is either the ClientID
@@ -145,23 +165,63 @@ theorem C08_name_normalization (n variant : Bytes) (hne : n ≠ []) (hnd : n.get
   rw [Ignore.normalize_eq_of_lower_eq h1]
   exact Ignore.normalize_append_dot hne hnd
 
+/-- What "on the ignore list" means for the commonest rule, declaratively: the
+list `["||d^"]` (the rule in any letter case) ignores a name of host-name
+characters iff the name is `d` or ends in `.d` with something in front — letter
+case aside.  (The modelled engine is the one the correspondence check ties to
+urlfilter.) -/
+theorem C08_domain_rule_ignores_subdomains (d host : Bytes) (hne : d ≠ [])
+    (hd : d.all Ignore.isHostCharB = true) (hh : host.all Ignore.isHostCharB = true) :
+    Ignore.has [Ignore.domainRule d] host = true ↔
+      host ≠ [] ∧ (lower host = lower d ∨
+        ∃ p t, host = p ++ dot :: t ∧ p ≠ [] ∧ lower t = lower d) :=
+  Ignore.has_domainRule d host hne hd hh
+
 /-! ## Ignored clients -/
 
 /-- A query from a client marked `ignore_querylog` — the persistent client
-identified, for the REAL address of the query, by ClientID, exact address,
-narrowest subnet or DHCP MAC, in that precedence — is not recorded in the
-query log, whether anonymisation is on or off; likewise `ignore_statistics`. -/
+identified, for the REAL peer address of the query (zone included), by
+ClientID, exact address, narrowest subnet, DHCP MAC, or as the only holder of
+that zoned address — is not recorded in the query log, whether anonymisation is
+on or off; likewise `ignore_statistics`, on a tree that carries the zoned-client
+repair or in a table without zoned addresses (`ZoneOK`). -/
 theorem C08_ignored_client_never_recorded (s : State) (q : Query) :
-    (fromIgnoredLog s.conf q.cid (canon q.addr) = true →
+    (fromIgnoredLog s.conf q.cid (canon q.addr) q.zone = true →
       (processQuery s q).mem = s.mem ∧ (processQuery s q).file = s.file) ∧
-    (fromIgnoredStat s.conf q.cid (canon q.addr) = true →
+    (ZoneOK s.conf → fromIgnoredStat s.conf q.cid (canon q.addr) q.zone = true →
       (processQuery s q).sClients = s.sClients ∧ (processQuery s q).sDomains = s.sDomains) := by
   rw [processQuery_eq]
   constructor
   · intro h
     simp [logCond_false_of_client h]
-  · intro h
-    simp [countCond_false_of_client h]
+  · intro hz h
+    simp [countCond_false_of_client hz h]
+
+/-- fe80::1 -/
+def exLinkLocal : Bytes := [254, 128, 0, 0, 0, 0, 0, 0, 0, 0, 0, 0, 0, 0, 0, 1]
+/-- a client configured as fe80::1%eth0 with both ignore flags -/
+def exZoned : PClient :=
+  { name := [122], ignLog := true, ignStat := true, ips := [],
+    zips := [(exLinkLocal, [101, 116, 104, 48])], nets := [], macs := [], cids := [] }
+
+/-- With the repair (`shouldCountClient` searches like the query log's finder)
+both stores attribute every request to the same client, so their client
+decisions can differ only by the two flags of that one client. -/
+theorem C08_log_and_stats_same_owner (cs : List PClient) (ls : Leases) (cid a : Bytes) :
+    findMultiple cs ls (idsOf cid a) = (modelOwnerL cs ls cid a).map (·.ignLog) ∧
+    shouldCountClient true cs ls (idsOf cid a) =
+      (match modelOwnerL cs ls cid a with | some c => !c.ignStat | none => true) :=
+  ⟨findMultiple_eq cs ls cid a, shouldCountClient_eq true cs ls cid a⟩
+
+/-- Without it they do not: the code as it is counts the requests of a client
+configured as fe80::1%eth0 with both flags set, while the query log ignores
+them (witness on the model, reproduced on the real code by
+fixes/c08/zoned_client_stats_test.go). -/
+theorem C08_counterexample_zoned_client_counted :
+    findMultiple [exZoned] [] (idsOf [] exLinkLocal) = some true ∧
+    shouldCountClient false [exZoned] [] (idsOf [] exLinkLocal) = true ∧
+    shouldCountClient true [exZoned] [] (idsOf [] exLinkLocal) = false := by
+  decide
 
 /-- The same in plain terms for the commonest case (F4's shape): a query without
 ClientID whose real address is an exact-address identifier of some persistent
@@ -173,22 +233,25 @@ theorem C08_ignored_exact_ip_client (s : State) (q : Query) (hcid : q.cid = [])
     (processQuery s q).mem = s.mem := by
   apply ((C08_ignored_client_never_recorded s q).1 _).1
   obtain ⟨c, hc, hip⟩ := hex
-  have hl1 : s.conf.clients.filter (cidMatch · q.cid) = [] := by
-    apply filter_eq_nil_of
-    intro x _
-    simp [cidMatch, hcid]
-  have hin : c ∈ s.conf.clients.filter (·.ips.contains (canon q.addr)) :=
-    mem_filter_of hc (by simpa using hip)
-  have hne : (s.conf.clients.filter (·.ips.contains (canon q.addr))).isEmpty = false := by
-    cases hl : s.conf.clients.filter (·.ips.contains (canon q.addr)) with
-    | nil => rw [hl] at hin; simp at hin
-    | cons _ _ => rfl
-  simp only [fromIgnoredLog, ownersAt, ownersByAddr, hl1, List.isEmpty_nil, Bool.not_true,
-    Bool.false_eq_true, if_false, hne, Bool.not_false, if_true, Bool.true_and]
-  apply List.all_eq_true.mpr
-  intro x hx
-  obtain ⟨hxc, hxp⟩ := List.mem_filter.mp hx
-  exact hall x hxc (by simpa using hxp)
+  have hown : (ownersAt s.conf.clients s.conf.leases q.cid (canon q.addr)).isEmpty = false ∧
+      (ownersAt s.conf.clients s.conf.leases q.cid (canon q.addr)).all (·.ignLog) = true := by
+    have hl1 : s.conf.clients.filter (cidMatch · q.cid) = [] := by
+      apply filter_eq_nil_of
+      intro x _
+      simp [cidMatch, hcid]
+    have hin : c ∈ s.conf.clients.filter (·.ips.contains (canon q.addr)) :=
+      mem_filter_of hc (by simpa using hip)
+    have hne : (s.conf.clients.filter (·.ips.contains (canon q.addr))).isEmpty = false := by
+      cases hl : s.conf.clients.filter (·.ips.contains (canon q.addr)) with
+      | nil => rw [hl] at hin; simp at hin
+      | cons _ _ => rfl
+    simp only [ownersAt, ownersByAddr, hl1, List.isEmpty_nil, Bool.not_true,
+      Bool.false_eq_true, if_false, hne, Bool.not_false, if_true, true_and]
+    apply List.all_eq_true.mpr
+    intro x hx
+    obtain ⟨hxc, hxp⟩ := List.mem_filter.mp hx
+    exact hall x hxc (by simpa using hxp)
+  simp [fromIgnoredLog, ownersZ, hown.1, hown.2]
 
 /-- The code's sequential client search over `[clientID, realIP]` (both the
 query log's `findMultiple`/`FindLoose` and the statistics'
@@ -198,19 +261,32 @@ identified at the strongest level present. -/
 theorem C08_finder_agrees_with_precedence (cs : List PClient) (ls : Leases) (cid a : Bytes) :
     (∀ c, modelOwner cs ls cid a = some c → c ∈ ownersAt cs ls cid a) ∧
     (ownersAt cs ls cid a ≠ [] → ∃ c, modelOwner cs ls cid a = some c) ∧
-    findMultiple cs ls (idsOf cid a) = (modelOwner cs ls cid a).map (·.ignLog) ∧
-    shouldCountClient cs ls (idsOf cid a) =
-      (match modelOwner cs ls cid a with | some c => !c.ignStat | none => true) :=
-  ⟨fun _ h => modelOwner_mem h, modelOwner_isSome, findMultiple_eq cs ls cid a, shouldCountClient_eq cs ls cid a⟩
+    (∀ loose, shouldCountClient loose cs ls (idsOf cid a) =
+      (match statOwner loose cs ls cid a with | some c => !c.ignStat | none => true)) ∧
+    ((∀ p ∈ cs, p.zips = []) → ∀ loose, statOwner loose cs ls cid a = modelOwner cs ls cid a) := by
+  refine ⟨fun _ h => modelOwner_mem h, modelOwner_isSome, fun l => shouldCountClient_eq l cs ls cid a, ?_⟩
+  intro hz loose
+  cases loose
+  · rfl
+  · have : byIPZoned cs a = none := by
+      unfold byIPZoned
+      apply List.find?_eq_none.mpr
+      intro p hp
+      simp [hz p hp]
+    simp only [statOwner, if_true, modelOwnerL, this]
+    cases modelOwner cs ls cid a <;> rfl
 
 /-! ## Disk, and what other operations can do -/
 
-/-- Nothing but a query adds a record: every other operation leaves the records
-held in file and memory together, and the statistics counters, exactly as they
-were; a flush moves the memory records to the end of the file. -/
+/-- Nothing but a query adds a record: every other operation — flush, restart
+(shutdown flush + start on the same directory), rotation, storing a statistics
+unit in stats.db, configuration changes, reads — leaves the records held in
+log file and memory buffer together, and the statistics tables held in
+stats.db and the memory unit together, exactly as they were. -/
 theorem C08_only_queries_record (s : State) (op : Op) (h : ∀ q, op ≠ .query q) :
     (step s op).1.file ++ (step s op).1.mem = s.file ++ s.mem ∧
-    (step s op).1.sClients = s.sClients ∧ (step s op).1.sDomains = s.sDomains := by
+    (step s op).1.dClients ++ (step s op).1.sClients = s.dClients ++ s.sClients ∧
+    (step s op).1.dDomains ++ (step s op).1.sDomains = s.dDomains ++ s.sDomains := by
   cases op with
   | query q => exact absurd rfl (h q)
   | flush => simp [step, flush]
@@ -224,6 +300,22 @@ theorem C08_only_queries_record (s : State) (op : Op) (h : ∀ q, op ≠ .query 
     cases rmClient s.conf.clients n <;> simp
   | search => simp [step]
   | stats => simp [step]
+  | tick => simp [step, tick]
+  | restart => simp [step, flush]
+  | rotate =>
+    simp only [step]
+    by_cases hr : s.rotated = true
+    · simp [hr]
+    · by_cases hf : s.file.isEmpty = true <;> simp [hr, hf]
+
+/-- A query itself never writes to disk: the log file and stats.db change only
+through flush / restart and through storing a unit, which (previous theorem)
+only move what memory already holds. -/
+theorem C08_query_never_writes_disk (s : State) (q : Query) :
+    (processQuery s q).file = s.file ∧ (processQuery s q).dClients = s.dClients ∧
+    (processQuery s q).dDomains = s.dDomains := by
+  rw [processQuery_eq]
+  exact ⟨rfl, rfl, rfl⟩
 
 /-- History form of "never recorded, neither in memory nor on disk": after any
 history, every record held in the file or in the memory buffer either was
@@ -257,8 +349,8 @@ theorem C08_every_stored_record_justified (ops : List Op) (s : State) :
                 cases hn : nameIgnoredLog s.conf q.name
                 · rfl
                 · rw [logCond_false_of_name hn] at hc; cases hc
-              · show fromIgnoredLog s.conf q.cid (canon q.addr) = false
-                cases hn : fromIgnoredLog s.conf q.cid (canon q.addr)
+              · show fromIgnoredLog s.conf q.cid (canon q.addr) q.zone = false
+                cases hn : fromIgnoredLog s.conf q.cid (canon q.addr) q.zone
                 · rfl
                 · rw [logCond_false_of_client hn] at hc; cases hc
         · rw [if_neg hc] at h
@@ -282,6 +374,20 @@ theorem C08_search_refilters (s : State) :
   obtain ⟨e, he, hk, rfl⟩ := mem_search hr
   obtain ⟨hn, hc⟩ := keeps_sound hk
   exact ⟨e, he, rfl, hn, hc⟩
+
+/-! ## Translator tie: the call structure of the current source -/
+
+/-- Over the call-site tables regenerated from internal/dnsforward on every run:
+every `QueryLog.Add` / `stats.Update` is reached only through `logQuery` /
+`updateStats`, these only under `if s.shouldLog(…, ids)` / `if
+s.shouldCountStat(…, ids)` in `processQueryLogsAndStats`; the single anonymizer
+call on `ip` comes after `realIPStr` is taken and before `ipStr`, both
+decisions and both records; `ids` is made of `realIPStr` and `dctx.clientID`
+only. -/
+theorem C08_record_calls_dominated :
+    Facts.ok Gen.C08.calls Gen.C08.idsOperands Gen.C08.idsAssignments Gen.C08.realIPStrPos
+      Gen.C08.ipStrPos = true := by
+  decide +kernel
 
 /-! ## Non-vacuity -/
 
@@ -312,6 +418,11 @@ example : (processQuery exState { name := [97, 46], qtype := 1, addr := [192, 16
 example : Ignore.has exConf.ignQ (Ignore.normalize exName) = true := by decide
 /-- … and does not match a name that merely ends in the same letters. -/
 example : Ignore.has exConf.ignQ (Ignore.normalize [120, 116, 114, 97, 99, 107, 101, 114, 46, 105, 111]) = false := by decide
+/-- A plain name on the list is exact: "example.org" ignores example.org, not www.example.org. -/
+example : Ignore.has [[101, 120, 97, 109, 112, 108, 101, 46, 111, 114, 103]]
+      [101, 120, 97, 109, 112, 108, 101, 46, 111, 114, 103] = true ∧
+    Ignore.has [[101, 120, 97, 109, 112, 108, 101, 46, 111, 114, 103]]
+      [119, 119, 119, 46, 101, 120, 97, 109, 112, 108, 101, 46, 111, 114, 103] = false := by decide
 /-- The root rule `|.^` matches the root name only. -/
 example : Ignore.has [[124, 46, 94]] (Ignore.normalize [46]) = true ∧
     Ignore.has [[124, 46, 94]] (Ignore.normalize [97, 46]) = false := by decide
